@@ -631,15 +631,13 @@ def agrees(expect, got):
     return ("+".join(parts) or "none") == got
 
 
-def spread_pin():
-    """pmap `init`: core.pin(w) puts worker w of EVERY concurrently running check on CPU w, so several
-    checks running with few workers all fight for CPUs 0..k.  Re-pin to a CPU derived from the pid
-    (still one CPU per worker, which keeps baton hand-offs cheap)."""
-    if core.ALL_CPUS:
-        try:
-            os.sched_setaffinity(0, {core.ALL_CPUS[os.getpid() % len(core.ALL_CPUS)]})
-        except OSError:
-            pass
+def worker_init():
+    """pmap `init`: core.pin(w) puts worker w of EVERY concurrently running check on CPU w, so checks
+    that run side by side with few workers all fight for CPUs 0..k, and a level-synchronous BFS then
+    waits for its slowest (starved) worker at every level.  Measured on the shared, loaded machine
+    (C16 quick, 5 workers): pinned 88 s, unpinned 71 s, unpinned + small work items 43 s.  So: undo
+    the pinning and let the OS balance."""
+    core.unpin()
 
 
 # ------------------------------------------------------------------------------------------------
@@ -655,7 +653,7 @@ class BfsOut:
         self.canon_samples = []
 
 
-def pbfs(run, enabled, canon, judge, max_depth, chunk=12, max_states=None):
+def pbfs(run, enabled, canon, judge, max_depth, chunk=3, max_states=None):
     """run(hist)->obs list ; enabled(hist, last_obs)->events ; canon(obs)->hashable (of the LAST obs, may
     look at all) ; judge(hist, obs, acc)->False to prune.  Every transition executes the complete
     history hist+[ev] on the implementation (prefix replay) in a worker; the canonical key recorded
@@ -703,7 +701,7 @@ def pbfs(run, enabled, canon, judge, max_depth, chunk=12, max_states=None):
                 with open(os.path.join(lvl, "r%d.pkl" % base), "wb") as f:
                     pickle.dump(res, f)
 
-            acc = core.pmap(items, work, init=spread_pin)
+            acc = core.pmap(items, work, init=worker_init)
             total.merge(acc)
             results = []
             for base, _ in items:
